@@ -1,4 +1,5 @@
 import FV.Proofs.Legal
+import FV.Proofs.LegalDecl
 import Mathlib.Tactic.IntervalCases
 /-
   C09 — Legaliser constraint system admits exactly the legal floorplans.
@@ -19,6 +20,13 @@ import Mathlib.Tactic.IntervalCases
   large one is rejected although its area is below `τ`).  This gap is what "up to the documented smoothing
   tolerance" in the property means; every other clause is characterised exactly (`bounds_iff`, `attach_iff`,
   `intra_iff_*`, `area_iff`, `fix_iff`).
+
+  Positivity is no longer an extra hypothesis once the variable declarations are part of the system (last sections:
+  `system_sound_declared`, `system_complete_declared_partial`, `declared_sandwich`); `netlist_to_utils` is shown to be
+  a faithful re-encoding (`utils_rects_exactly_once`, `utils_tables_original`); the groups `radius` (step caps), the
+  enforce flags and the `Rid` equations of disabled rectangles are characterised (`step_caps_met_iff`,
+  `unenforced_pair_holds`, `rid_contradicts_lower_bound`, witnesses `declared_excludes_small_legal`,
+  `stale_caps_exclude_legal`).
 
   The observation point `Equation.is_equation_met()` adds the annealed slack `ε` and the constant `1e-6`:
   section "General slack" treats it (`Met c e t`): per-kind iff with every clause relaxed by `e + t`
@@ -780,7 +788,7 @@ theorem reject_fixed_moved (P : Params ℝ) (mods : List (InModule ℝ)) (c : Cf
   · linarith [this.2]
 
 /-!
-### NOT CLAIMED — positive sizes are not a consequence of the equations
+### Positive sizes are not a consequence of the EQUATIONS — they come from the variable bounds (closed below)
 
 Every statement above that goes from the equations to legality (`system_sound`, `system_sound_slack`, the
 `reject_*` theorems, `bounds_iff`, `ratio_iff`) assumes `Pos` / `0 < w`, `0 < h`, and `Legal` / `LegalS` carry the
@@ -789,9 +797,16 @@ and the no-overlap equation only sees `(w₁ + w₂)²`.  Witness on the real co
 10×10, ratio 3, soft `A = (7, 7, -2, -2)` placed exactly on top of soft `B = (7, 7, 2, 2)`: `is_equation_met()` is
 `True` for every equation (Bounds: 8 ≥ 0, 6 ≤ 10; ratio: thin(-2,-2) = ½; Area: (-2)(-2) = 4; Inter:
 `(w₁ + w₂)² = 0`, so `tX = tY = 0`).  What excludes such configurations in the tool is the variable bound
-`lb = 0.1` that `_define_vars` gives `w` and `h` in GEKKO — outside the equation system, reported by the harness as
-`variable_bounds_lb_on_w_h`, not part of this property.  So the equivalence proved here is:
-for configurations of boxes with positive width and height, `Legal 0 ⊆ Sat ⊆ Legal τ`.
+`lb = 0.1` that `_define_vars` gives `w` and `h` in GEKKO.  The section "Variable declarations" at the end of this file
+models the declarations (`decls`, tied to the real `Model` on every run) and proves the statements for the system
+"equations AND declared bounds" with NO positivity hypothesis: `system_sound_declared`,
+`system_sound_slack_declared`, `declared_excludes_small`.  What remains — and is a property of the code, not of the
+proof — is that the declared system is NARROWER than legality: `lb = 0.1` is an absolute length, so legal floorplans
+with a side below `0.1` are excluded (`declared_excludes_small_legal`); completeness therefore carries the hypothesis
+`MinSide (1/10)` (`system_complete_declared_partial`, `declared_sandwich`).
+
+NOT YET PROVED (false of the code as it is, finding `C09-min-side`):
+  `Legal 0 P mods c → AllEquationsHold P mods c ∧ DeclaredBoundsHold P mods c`   (without `MinSide (1/10) mods c`).
 -/
 
 /-! ### non-vacuity: a two-module floorplan (a fixed 4×2 trunk with a 2×2 north branch, and a soft 2×2) in a 10×10 die -/
@@ -1055,5 +1070,422 @@ example : ¬ AllMet P mods cSwap e0 t0 :=
 end
 
 end Witness
+
+/-! ## Variable declarations — the system "equations AND variable bounds"
+
+`ModelModule._define_vars` declares every GEKKO variable with bounds (`x ∈ [0, dw]`, `y ∈ [0, dh]`, `w ∈ [0.1, dw]`,
+`h ∈ [0.1, dh]`) and the value the netlist gives it; `Model.define_time` declares `time ∈ [0, 1000]`.  The model is
+`decls` (FV/Model/LegalDecl.lean); the harness compares it on every run with the `ExpressionTree.data` of every variable,
+with the `LOWER / UPPER / VALUE` of the attached `GKVariable`, and with the variable list of the GEKKO object. -/
+
+/-- the bounds GEKKO enforces on the variables of the rectangles hold for the configuration. -/
+def DeclaredBoundsHold (P : Params ℝ) (mods : List (InModule ℝ)) (c : Cfg) : Prop :=
+  ∃ U, netlistToUtils mods = .ok U ∧ DeclsIn P U c
+
+/-- every side of every rectangle is at least `s`. -/
+def MinSide (s : ℝ) (mods : List (InModule ℝ)) (c : Cfg) : Prop :=
+  ∀ m M, mods[m]? = some M → ∀ i < (split M.rects).c, s ≤ (c m i).w ∧ s ≤ (c m i).h
+
+/-- the declared bounds, rectangle by rectangle: centre inside `[0,dw] × [0,dh]`, sides in `[0.1, dw]`, `[0.1, dh]`. -/
+theorem declared_bounds_iff (P : Params ℝ) (mods : List (InModule ℝ)) (U : Utils ℝ) (c : Cfg)
+    (hU : netlistToUtils mods = .ok U) :
+    DeclsIn P U c ↔ ∀ m M, mods[m]? = some M → ∀ i < (split M.rects).c,
+      (0 ≤ (c m i).x ∧ (c m i).x ≤ P.dw) ∧ (0 ≤ (c m i).y ∧ (c m i).y ≤ P.dh) ∧
+      (1 / 10 ≤ (c m i).w ∧ (c m i).w ≤ P.dw) ∧ (1 / 10 ≤ (c m i).h ∧ (c m i).h ≤ P.dh) :=
+  declsIn_iff P mods U c (utils_ml mods U hU)
+
+/-- the declared rectangle variables are exactly `x, y, w, h` of every rectangle of every module … -/
+theorem declared_names (P : Params ℝ) (mods : List (InModule ℝ)) (U : Utils ℝ) (hU : netlistToUtils mods = .ok U) (q : Var) :
+    (∃ d ∈ decls P U, d.n = .rect q) ↔ ∃ M, mods[q.m]? = some M ∧ q.i < (split M.rects).c :=
+  decls_cover P mods U (utils_ml mods U hU) q
+
+/-- … each with ONE declaration (two declarations of the same name have the same initial value and bounds). -/
+theorem declared_once (P : Params ℝ) (mods : List (InModule ℝ)) (U : Utils ℝ) (hU : netlistToUtils mods = .ok U)
+    (d₁ d₂ : Decl ℝ) (h₁ : d₁ ∈ decls P U) (h₂ : d₂ ∈ decls P U) (hn : d₁.n = d₂.n) : d₁ = d₂ :=
+  decls_functional P mods U (utils_ml mods U hU) d₁ d₂ h₁ h₂ hn
+
+/-- the variables start at the input configuration (the point the solver is started from). -/
+theorem declared_initial_is_input (P : Params ℝ) (mods : List (InModule ℝ)) (U : Utils ℝ)
+    (hU : netlistToUtils mods = .ok U) (d : Decl ℝ) (q : Var) (hd : d ∈ decls P U) (hq : d.n = .rect q) :
+    d.value = env (inputCfg mods) q := by
+  have hml := utils_ml mods U hU
+  rcases (mem_decls P mods U hml d).mp hd with rfl | ⟨m, M, hM, hd | ⟨i, s, b, hs, hd⟩⟩
+  · simp [timeDecl] at hq
+  · obtain ⟨hm, hi, hv⟩ := rectDecls_value P m 0 _ d q hd hq
+    obtain ⟨k, m', i'⟩ := q
+    simp only at hm hi; subst hm hi
+    rw [hv, env_coord]; simp [inputCfg, hM]
+  · obtain ⟨hm, hi, hv⟩ := rectDecls_value P m i b d q hd hq
+    obtain ⟨k, m', i'⟩ := q
+    simp only at hm hi; subst hm hi
+    obtain ⟨h1, _, hb⟩ := sided_range _ _ s b hs
+    rw [hv, env_coord]
+    obtain ⟨j, rfl⟩ : ∃ j, i' = j + 1 := ⟨i' - 1, by omega⟩
+    simp only [Nat.add_sub_cancel] at hb
+    simp [inputCfg, hM, hb]
+
+/-- `time` is declared in `[0, 1000]` and starts at `fixed_t = 1`. -/
+theorem declared_time (P : Params ℝ) (U : Utils ℝ) :
+    (timeDecl one : Decl ℝ) ∈ decls P U ∧ (timeDecl one : Decl ℝ).value = 1 ∧ (timeDecl one : Decl ℝ).lb = 0 ∧
+      (timeDecl one : Decl ℝ).ub = 1000 := by
+  refine ⟨by simp [decls], ?_, ?_, ?_⟩ <;> simp [timeDecl]
+
+/-- the declared bounds make every rectangle a box of positive size: this is where positivity comes from. -/
+theorem declared_positive (P : Params ℝ) (mods : List (InModule ℝ)) (c : Cfg) (h : DeclaredBoundsHold P mods c) :
+    Pos mods c := by
+  obtain ⟨U, hU, hd⟩ := h
+  exact boundsRaw_pos P mods c ((declsIn_iff P mods U c (utils_ml mods U hU)).mp hd)
+
+/-- **Soundness of the declared system, no positivity hypothesis.**  A configuration that satisfies every generated
+    equation AND the declared variable bounds is a legal floorplan (overlap between modules at most `τ`). -/
+theorem system_sound_declared (P : Params ℝ) (mods : List (InModule ℝ)) (c : Cfg)
+    (hr : 1 ≤ P.r) (hdw : 0 ≤ P.dw) (hdh : 0 ≤ P.dh)
+    (h : AllEquationsHold P mods c) (hb : DeclaredBoundsHold P mods c) : Legal (tauV P mods.length) P mods c :=
+  system_sound P mods c hr hdw hdh (declared_positive P mods c hb) h
+
+/-- the same for what `is_equation_met()` reports at slack `e`, constant `t`. -/
+theorem system_sound_slack_declared (P : Params ℝ) (mods : List (InModule ℝ)) (c : Cfg) (e t : ℝ)
+    (he : 0 ≤ e) (ht : 0 ≤ t) (h : AllMet P mods c e t) (hb : DeclaredBoundsHold P mods c) :
+    LegalS (tauV P mods.length) (e + t) P mods c :=
+  system_sound_slack P mods c e t he ht (declared_positive P mods c hb) h
+
+/-- a legal floorplan (any overlap tolerance) whose sides are all at least `0.1` lies inside the declared bounds:
+    apart from `lb = 0.1` the bounds follow from "inside the die". -/
+theorem declared_bounds_of_legal (τ : ℝ) (P : Params ℝ) (mods : List (InModule ℝ)) (c : Cfg) (U : Utils ℝ)
+    (hU : netlistToUtils mods = .ok U) (h : Legal τ P mods c) (hmin : MinSide (1 / 10) mods c) :
+    DeclaredBoundsHold P mods c := by
+  refine ⟨U, hU, (declsIn_iff P mods U c (utils_ml mods U hU)).mpr ?_⟩
+  intro m M hM i hi
+  obtain ⟨hw, hh⟩ := (h.modules m M hM).positive i hi
+  obtain ⟨h1, h2, h3, h4⟩ := (h.modules m M hM).inDie i hi
+  obtain ⟨mw, mh⟩ := hmin m M hM i hi
+  unfold xmin at h1; unfold ymin at h2; unfold xmax at h3; unfold ymax at h4
+  exact ⟨⟨by linarith, by linarith⟩, ⟨by linarith, by linarith⟩, ⟨mw, by linarith⟩, ⟨mh, by linarith⟩⟩
+
+/-- **Completeness of the declared system — partial.**  A legal floorplan satisfies the equations and the declared
+    bounds PROVIDED every side is at least `0.1` (the hypothesis `MinSide`; see `declared_excludes_small_legal`:
+    it cannot be dropped — `lb = 0.1` is an absolute length, not a consequence of legality). -/
+theorem system_complete_declared_partial (P : Params ℝ) (mods : List (InModule ℝ)) (c : Cfg)
+    (hr : 1 ≤ P.r) (hne : mods ≠ []) (hfh : ∀ M ∈ mods, M.fixed = true → M.hard = true)
+    (h : Legal 0 P mods c) (hmin : MinSide (1 / 10) mods c) :
+    AllEquationsHold P mods c ∧ DeclaredBoundsHold P mods c := by
+  have he := system_complete P mods c hr hne hfh h
+  obtain ⟨U, es, hU, _, _⟩ := he
+  exact ⟨system_complete P mods c hr hne hfh h, declared_bounds_of_legal 0 P mods c U hU h hmin⟩
+
+/-- the characterisation with the bounds: for configurations whose sides are all at least `0.1`,
+    `Legal 0 ⊆ (equations ∧ bounds) ⊆ Legal τ` with NO further hypothesis on the configuration. -/
+theorem declared_sandwich (P : Params ℝ) (mods : List (InModule ℝ)) (c : Cfg)
+    (hr : 1 ≤ P.r) (hdw : 0 ≤ P.dw) (hdh : 0 ≤ P.dh) (hne : mods ≠ [])
+    (hfh : ∀ M ∈ mods, M.fixed = true → M.hard = true) :
+    (Legal 0 P mods c ∧ MinSide (1 / 10) mods c → AllEquationsHold P mods c ∧ DeclaredBoundsHold P mods c) ∧
+    (AllEquationsHold P mods c ∧ DeclaredBoundsHold P mods c →
+      Legal (tauV P mods.length) P mods c ∧ MinSide (1 / 10) mods c) := by
+  refine ⟨fun h => system_complete_declared_partial P mods c hr hne hfh h.1 h.2, fun h => ⟨system_sound_declared P mods c hr hdw hdh h.1 h.2, ?_⟩⟩
+  obtain ⟨U, hU, hd⟩ := h.2
+  intro m M hM i hi
+  obtain ⟨_, _, hw, hh⟩ := (declsIn_iff P mods U c (utils_ml mods U hU)).mp hd m M hM i hi
+  exact ⟨hw.1, hh.1⟩
+
+/-- **In particular**: the solver's starting point — the input configuration of a legal floorplan with sides `≥ 0.1` —
+    satisfies the equations and lies inside the declared bounds. -/
+theorem input_satisfies_declared (P : Params ℝ) (mods : List (InModule ℝ))
+    (hr : 1 ≤ P.r) (hne : mods ≠ []) (hfh : ∀ M ∈ mods, M.fixed = true → M.hard = true)
+    (h : LegalInput P mods) (hmin : MinSide (1 / 10) mods (inputCfg mods)) :
+    AllEquationsHold P mods (inputCfg mods) ∧ DeclaredBoundsHold P mods (inputCfg mods) := by
+  have he := input_satisfies P mods hr hne hfh h
+  obtain ⟨U, es, hU, _, _⟩ := he
+  refine ⟨input_satisfies P mods hr hne hfh h, U, hU, (declsIn_iff P mods U _ (utils_ml mods U hU)).mpr ?_⟩
+  intro m M hM i hi
+  obtain ⟨hw, hh⟩ := (h.modules m M hM).positive i hi
+  obtain ⟨h1, h2, h3, h4⟩ := (h.modules m M hM).inDie i hi
+  obtain ⟨mw, mh⟩ := hmin m M hM i hi
+  unfold xmin at h1; unfold ymin at h2; unfold xmax at h3; unfold ymax at h4
+  exact ⟨⟨by linarith, by linarith⟩, ⟨by linarith, by linarith⟩, ⟨mw, by linarith⟩, ⟨mh, by linarith⟩⟩
+
+/-- a configuration with a side `< 0.1` (in particular a non-positive one) is outside the declared system, whatever
+    the equations say (this excludes the witness of the former NOT CLAIMED block: soft `A = (7,7,-2,-2)` on `B`). -/
+theorem declared_excludes_small (P : Params ℝ) (mods : List (InModule ℝ)) (c : Cfg) (m : Nat) (M : InModule ℝ) (i : Nat)
+    (hM : mods[m]? = some M) (hi : i < (split M.rects).c) (hv : (c m i).w < 1 / 10 ∨ (c m i).h < 1 / 10) :
+    ¬ DeclaredBoundsHold P mods c := by
+  rintro ⟨U, hU, hd⟩
+  obtain ⟨_, _, hw, hh⟩ := (declsIn_iff P mods U c (utils_ml mods U hU)).mp hd m M hM i hi
+  rcases hv with hv | hv
+  · linarith [hw.1]
+  · linarith [hh.1]
+
+/-! ## `netlist_to_utils` is a faithful re-encoding of the loaded netlist -/
+
+/-- **Every rectangle appears exactly once, with its role.**  For a module with exactly one trunk rectangle and
+    every other rectangle labelled with a side, the trunk slot followed by the N / S / E / W lists (tagged with
+    their side) is a permutation of the module's (role, box) pairs. -/
+theorem utils_rects_exactly_once (rs : List (InRect ℝ)) (h : ∀ r ∈ rs, r.loc ≠ .nopoly)
+    (h1 : (rs.filter (fun r => r.loc == .trunk)).length = 1) :
+    ((Loc.trunk, (split rs).trunk) :: (split rs).tagged).Perm (rs.map roleBox) := split_perm rs h h1
+
+/-- module list and area list: one entry per module, in order. -/
+theorem utils_lists (mods : List (InModule ℝ)) (U : Utils ℝ) (hU : netlistToUtils mods = .ok U) :
+    U.ml = mods.map (fun M => split M.rects) ∧ U.al = mods.map (·.area) ∧
+      U.ml.length = mods.length ∧ U.al.length = mods.length := by
+  unfold netlistToUtils at hU
+  split at hU
+  · cases hU
+  · injection hU with hU; subst hU; simp
+
+/-- **The fixing tables give the original shape and place.**  Soft modules have no row.  The row of a hard module
+    holds, for every rectangle, its original width and height, for every branch its original offset from the trunk
+    (so offset + original trunk centre = original centre), and — for a fixed module only — the trunk's original centre. -/
+theorem utils_tables_original (mods : List (InModule ℝ)) (U : Utils ℝ) (hU : netlistToUtils mods = .ok U)
+    (m : Nat) (M : InModule ℝ) (hM : mods[m]? = some M) :
+    (M.hard = false → dget m U.xl = none ∧ dget m U.yl = none ∧ dget m U.wl = none ∧ dget m U.hl = none) ∧
+    (M.hard = true → ∀ i < (split M.rects).c,
+      (dget m U.wl).bind (dget i) = some (inputCfg mods m i).w ∧
+      (dget m U.hl).bind (dget i) = some (inputCfg mods m i).h ∧
+      (1 ≤ i → (dget m U.xl).bind (dget i) = some ((inputCfg mods m i).x - (inputCfg mods m 0).x) ∧
+               (dget m U.yl).bind (dget i) = some ((inputCfg mods m i).y - (inputCfg mods m 0).y)) ∧
+      (i = 0 → (dget m U.xl).bind (dget i) = (if M.fixed then some (inputCfg mods m 0).x else none) ∧
+               (dget m U.yl).bind (dget i) = (if M.fixed then some (inputCfg mods m 0).y else none))) := by
+  unfold netlistToUtils at hU
+  split at hU
+  · cases hU
+  · injection hU with hU; subst hU
+    simp only [dget_tables, Nat.zero_le, if_true, Nat.sub_zero, hM, Option.bind_some]
+    constructor
+    · intro hh; simp [hh]
+    · intro hh i hi
+      simp only [hh, if_true, Option.bind_some, dget_wDict, dget_hDict, dget_xDict, dget_yDict]
+      by_cases h0 : i = 0
+      · subst h0
+        simp [inputCfg, hM]
+      · obtain ⟨j, rfl⟩ : ∃ j, i = j + 1 := ⟨i - 1, by omega⟩
+        have hj : j < (split M.rects).branches.length := by unfold ModIn.c at hi; omega
+        simp [inputCfg, hM, List.getElem?_eq_getElem hj]
+
+/-! ## groups outside legality that `Model(...)` also files: step caps, enforce flags, disabled rectangles -/
+
+/-- the input boxes of module `m`, rectangle `i`, as `Model(...)` sees them when it makes the caps. -/
+theorem inputBoxes_get (mods : List (InModule ℝ)) (U : Utils ℝ) (hU : netlistToUtils mods = .ok U)
+    (m : Nat) (bs : List (Box ℝ)) (i : Nat) (b0 : Box ℝ) :
+    ((inputBoxes U)[m]? = some bs ∧ bs[i]? = some b0) ↔
+      ∃ M, mods[m]? = some M ∧ bs = (split M.rects).boxes ∧ i < (split M.rects).c ∧ b0 = inputCfg mods m i := by
+  have hml := utils_ml mods U hU
+  unfold inputBoxes
+  rw [hml, List.map_map, List.getElem?_map]
+  constructor
+  · rintro ⟨h1, h2⟩
+    cases hM : mods[m]? with
+    | none => simp [hM] at h1
+    | some M =>
+      simp only [hM, Option.map_some, Function.comp_apply, Option.some.injEq] at h1
+      subst h1
+      have hlt : i < (split M.rects).boxes.length := by
+        by_contra hc; rw [List.getElem?_eq_none (by omega)] at h2; cases h2
+      refine ⟨M, rfl, rfl, by simpa [ModIn.boxes, ModIn.c, Nat.add_comm] using hlt, ?_⟩
+      simp only [inputCfg, hM]
+      unfold ModIn.boxes at h2
+      rw [h2]; rfl
+  · rintro ⟨M, hM, rfl, hi, rfl⟩
+    refine ⟨by simp [hM], ?_⟩
+    have hlt : i < (split M.rects).boxes.length := by simpa [ModIn.boxes, ModIn.c, Nat.add_comm] using hi
+    simp only [inputCfg, hM]
+    unfold ModIn.boxes at hlt ⊢
+    rw [List.getElem?_eq_getElem hlt]; rfl
+
+/-- **The step caps (`radius` group), exactly.**  The hard caps `Model(...)` leaves in `ModelWrapper.constraints` are
+    reported met (constant `t`; the slack plays no role) iff every rectangle is within `rad + t` of its INPUT centre
+    and at most `rad + t` wider / higher than at the input, `rad = 0.2 · max(dw, dh) · 0.3`. -/
+theorem step_caps_met_iff (P : Params ℝ) (mods : List (InModule ℝ)) (U : Utils ℝ) (hU : netlistToUtils mods = .ok U)
+    (c : Cfg) (e t : ℝ) :
+    (∀ q ∈ stepEqsOf P U, Met c e t q) ↔
+      ∀ m M, mods[m]? = some M → ∀ i < (split M.rects).c, CapRaw (stepRadius P) t (inputCfg mods m i) (c m i) := by
+  unfold stepEqsOf
+  rw [stepEqs_met_iff]
+  constructor
+  · intro h m M hM i hi
+    exact h m _ i _ ((inputBoxes_get mods U hU m _ i _).mpr ⟨M, hM, rfl, hi, rfl⟩).1
+      ((inputBoxes_get mods U hU m _ i _).mpr ⟨M, hM, rfl, hi, rfl⟩).2
+  · intro h m bs i b0 h1 h2
+    obtain ⟨M, hM, rfl, hi, rfl⟩ := (inputBoxes_get mods U hU m bs i b0).mp ⟨h1, h2⟩
+    exact h m M hM i hi
+
+/-- the caps never exclude the point they were made at: the input configuration meets them. -/
+theorem step_caps_hold_at_input (P : Params ℝ) (mods : List (InModule ℝ)) (U : Utils ℝ) (hU : netlistToUtils mods = .ok U)
+    (e t : ℝ) (ht : 0 ≤ t) (hd : 0 ≤ max P.dw P.dh) : ∀ q ∈ stepEqsOf P U, Met (inputCfg mods) e t q := by
+  rw [step_caps_met_iff P mods U hU]
+  intro m M hM i hi
+  have hr : 0 ≤ stepRadius P := by rw [stepRadius_eq]; positivity
+  unfold CapRaw
+  refine ⟨?_, ?_, ?_, ?_, ?_, ?_⟩ <;> linarith
+
+/-- **A pair that is not enforced is disjoint.**  `Model.build_model` drops the no-overlap equation of a pair whose
+    L1 gap at the current configuration exceeds the threshold; at that configuration the dropped equation holds. -/
+theorem unenforced_pair_holds (c : Cfg) (thr tau : ℝ) (m i n j : Nat) (hthr : 0 ≤ thr)
+    (hp : 0 < (c m i).w ∧ 0 < (c m i).h) (hq : 0 < (c n j).w ∧ 0 < (c n j).h)
+    (h : ¬ distL1 (c m i) (c n j) ≤ thr) : Holds c (interEq tau m i n j) :=
+  (interEq_iff c tau m i n j).mpr (far_pair_interRaw _ _ thr tau hthr hp.1 hp.2 hq.1 hq.2 h)
+
+/-- the `Rid` equations of a disabled rectangle: it sits on the trunk's centre with width and height `0` (up to the slack). -/
+theorem rid_met_iff (c : Cfg) (e t : ℝ) (m i : Nat) :
+    (∀ q ∈ ridEqs m i, Met c e t q) ↔
+      |(c m i).x - (c m 0).x| ≤ e + t ∧ |(c m i).y - (c m 0).y| ≤ e + t ∧ |(c m i).w| ≤ e + t ∧ |(c m i).h| ≤ e + t := by
+  rw [ridEqs_met_iff]
+  simp only [near_iff, sub_zero]
+
+/-- **A disabled rectangle contradicts its own declaration.**  Once `turn_off_rects` has disabled a rectangle, the
+    system handed to the solver asks for `w = h = 0` while the variable is declared with `lb = 0.1`: no configuration
+    inside the declared bounds meets the `Rid` equations as soon as `slack + constant < 0.1`. -/
+theorem rid_contradicts_lower_bound (P : Params ℝ) (mods : List (InModule ℝ)) (c : Cfg) (e t : ℝ)
+    (m : Nat) (M : InModule ℝ) (i : Nat) (hM : mods[m]? = some M) (hi : i < (split M.rects).c)
+    (hb : DeclaredBoundsHold P mods c) (het : e + t < 1 / 10) : ¬ ∀ q ∈ ridEqs m i, Met c e t q := by
+  intro h
+  obtain ⟨U, hU, hd⟩ := hb
+  obtain ⟨_, _, hw, _⟩ := (declsIn_iff P mods U c (utils_ml mods U hU)).mp hd m M hM i hi
+  have := ((rid_met_iff c e t m i).mp h).2.2.1
+  rw [abs_le] at this
+  linarith [hw.1, this.2]
+
+/-! ### witnesses: what the declared bounds and the kept step caps exclude although it is legal -/
+
+/-- a single box `b` as configuration. -/
+def one (b : Box ℝ) : Cfg := fun _ _ => b
+
+/-- a netlist with ONE soft module made of ONE rectangle `b0` (required area `a`): the configuration that puts the
+    rectangle at `b` is a legal floorplan as soon as `b` is a box inside the die, within the ratio, with enough area. -/
+theorem legal_one (P : Params ℝ) (b0 b : Box ℝ) (a : ℝ) (hw : 0 < b.w) (hh : 0 < b.h) (hin : InDie P b)
+    (has : AspectOK P.r b) (ha : a ≤ b.w * b.h) : Legal 0 P [⟨[⟨b0, .trunk⟩], false, false, a⟩] (one b) := by
+  have hs : split [(⟨b0, .trunk⟩ : InRect ℝ)] = { trunk := b0 } := by simp [split, placeRect]
+  have hk : (split [(⟨b0, .trunk⟩ : InRect ℝ)]).c = 1 := by simp [hs, ModIn.c, ModIn.branches]
+  have hsd : (split [(⟨b0, .trunk⟩ : InRect ℝ)]).sided = [] := by simp [hs, ModIn.sided, idxFrom]
+  refine { modules := ?_, hard := ?_, fixed := ?_, noOverlap := ?_ }
+  · intro m M hM
+    match m with
+    | 0 =>
+      obtain rfl : (⟨[⟨b0, .trunk⟩], false, false, a⟩ : InModule ℝ) = M := by simpa using hM
+      exact {
+        positive := fun i hi => ⟨hw, hh⟩
+        inDie := fun i hi => hin
+        aspect := fun i hi => has
+        area := by simp only [hk]; simp [areaSum, one]; exact ha
+        attached := by intro i s q h; simp only [hsd] at h; simp at h
+        ordered := by simp [SidesOrdered, SideOrdered, ModIn.side, hsd, sortBy] }
+    | n+1 => simp at hM
+  · intro m M hM hh'
+    match m with
+    | 0 => obtain rfl : (⟨[⟨b0, .trunk⟩], false, false, a⟩ : InModule ℝ) = M := by simpa using hM
+           simp at hh'
+    | n+1 => simp at hM
+  · intro m M hM hf
+    match m with
+    | 0 => obtain rfl : (⟨[⟨b0, .trunk⟩], false, false, a⟩ : InModule ℝ) = M := by simpa using hM
+           simp at hf
+    | n+1 => simp at hM
+  · intro m n Mm Mn hmn hMm hMn
+    match n with
+    | 0 => omega
+    | n+1 => simp at hMn
+
+theorem one_minSide (b0 b : Box ℝ) (a s : ℝ) (hw : s ≤ b.w) (hh : s ≤ b.h) :
+    MinSide s [⟨[⟨b0, .trunk⟩], false, false, a⟩] (one b) := fun m M hM i hi => ⟨hw, hh⟩
+
+/-- die 1 × 1, ratio limit 3; one soft module: a `0.05 × 0.05` square in the middle. -/
+noncomputable def smallM : InModule ℝ := ⟨[⟨⟨1/2, 1/2, 1/20, 1/20⟩, .trunk⟩], false, false, 1/400⟩
+/-- die 20 × 20; one soft `2 × 2` module at `(5, 5)`. -/
+noncomputable def farM : InModule ℝ := ⟨[⟨⟨5, 5, 2, 2⟩, .trunk⟩], false, false, 4⟩
+
+/-- **`lb = 0.1` excludes legal floorplans.**  Die 1 × 1, ratio limit 3, one soft module: a `0.05 × 0.05` square in the
+    middle (a netlist whose unit makes the modules small).  Keeping it where it is is a legal floorplan and satisfies
+    every equation, yet lies outside the declared variable bounds: the hypothesis `MinSide (1/10)` of
+    `system_complete_declared_partial` cannot be dropped. -/
+theorem declared_excludes_small_legal :
+    Legal 0 ⟨1, 1, 3⟩ [smallM] (one ⟨1/2, 1/2, 1/20, 1/20⟩) ∧
+    AllEquationsHold ⟨1, 1, 3⟩ [smallM] (one ⟨1/2, 1/2, 1/20, 1/20⟩) ∧
+    ¬ DeclaredBoundsHold ⟨1, 1, 3⟩ [smallM] (one ⟨1/2, 1/2, 1/20, 1/20⟩) := by
+  have hL : Legal 0 ⟨1, 1, 3⟩ [smallM] (one ⟨1/2, 1/2, 1/20, 1/20⟩) :=
+    legal_one ⟨1, 1, 3⟩ ⟨1/2, 1/2, 1/20, 1/20⟩ ⟨1/2, 1/2, 1/20, 1/20⟩ (1/400) (by norm_num) (by norm_num)
+      (by unfold InDie xmin xmax ymin ymax; norm_num) (by unfold AspectOK; norm_num) (by norm_num)
+  refine ⟨hL, system_complete _ _ _ (by norm_num) (by simp) (by intro M hM; simp at hM; subst hM; simp [smallM]) hL, ?_⟩
+  refine declared_excludes_small _ _ _ 0 smallM 0 rfl ?_ (Or.inl (by simp [one]; norm_num))
+  simp [smallM, split, placeRect, ModIn.c, ModIn.branches]
+
+/-- **The step caps kept from construction exclude legal floorplans.**  Die 20 × 20, one soft `2 × 2` module at
+    `(5, 5)`.  Putting it at `(15, 15)` is a legal floorplan, satisfies every equation and every declared bound, but
+    NOT the hard `radius` caps that `Model(...)` files (and that `ModelWrapper.build_model` keeps posting when
+    `small_steps` is off): they tie every rectangle to within `0.06 · max(dw, dh) = 1.2` of its input place. -/
+theorem stale_caps_exclude_legal :
+    ∃ U, netlistToUtils [farM] = .ok U ∧
+      Legal 0 ⟨20, 20, 3⟩ [farM] (one ⟨15, 15, 2, 2⟩) ∧
+      AllEquationsHold ⟨20, 20, 3⟩ [farM] (one ⟨15, 15, 2, 2⟩) ∧
+      DeclaredBoundsHold ⟨20, 20, 3⟩ [farM] (one ⟨15, 15, 2, 2⟩) ∧
+      ¬ ∀ q ∈ stepEqsOf ⟨20, 20, 3⟩ U, Met (one ⟨15, 15, 2, 2⟩) 0 (1 / 1000000) q := by
+  have hL : Legal 0 ⟨20, 20, 3⟩ [farM] (one ⟨15, 15, 2, 2⟩) :=
+    legal_one ⟨20, 20, 3⟩ ⟨5, 5, 2, 2⟩ ⟨15, 15, 2, 2⟩ 4 (by norm_num) (by norm_num)
+      (by unfold InDie xmin xmax ymin ymax; norm_num) (by unfold AspectOK; norm_num) (by norm_num)
+  have hc := system_complete_declared_partial _ _ _ (by norm_num) (by simp)
+    (by intro M hM; simp at hM; subst hM; simp [farM]) hL (one_minSide _ _ _ _ (by norm_num) (by norm_num))
+  obtain ⟨U, hU, hd⟩ := hc.2
+  refine ⟨U, hU, hL, hc.1, hc.2, ?_⟩
+  intro h
+  rw [step_caps_met_iff _ _ U hU] at h
+  have := (h 0 farM rfl 0 (by simp [farM, split, placeRect, ModIn.c, ModIn.branches])).1
+  rw [stepRadius_eq] at this
+  simp [one, inputCfg, farM, split, placeRect] at this
+  norm_num at this
+
+/-! ### disabled rectangles: flags -/
+
+/-- with nothing disabled `get_constraints` is the system the legality theorems are about. -/
+theorem macroEqsEn_all_enabled (P : Params ℝ) (m : Nat) (b : ModIn ℝ) : macroEqsEn P m b [] = macroEqs P m b := by
+  have hen : ∀ i, enAt [] i = true := fun i => by simp [enAt]
+  have hs : ∀ (s : Loc) (k e : VK) (key : Box ℝ → ℝ) (nm : String),
+      intraSideEn m b [] s k e key nm = intraSide m b s k e key nm := by
+    intro s k e key nm
+    unfold intraSideEn intraSide
+    simp [hen]
+  unfold macroEqsEn macroEqs moduleRectEqs intraEqs
+  simp only [hen, if_true, hs, List.append_assoc]
+
+/-- `turn_off_rects` never disables the trunk, and keeps every enabled rectangle whose share of the module's area
+    exceeds `perc`. -/
+theorem turnOff_keeps (perc : ℝ) (bs : List (Box ℝ)) (en en' : List Bool) (h : turnOff perc bs en = some en')
+    (i : Nat) (b : Box ℝ) (hb : bs[i]? = some b) (he : en[i]? = some true)
+    (hk : i = 0 ∨ perc < b.w * b.h / areaOf bs) : en'[i]? = some true := by
+  unfold turnOff at h
+  split at h
+  · injection h with h; subst h; exact he
+  · simp only at h
+    split at h
+    · cases h
+    · injection h with h; subst h
+      rw [getElem?_idxFrom_map]
+      have hz : (bs.zip en)[i]? = some (b, true) := by
+        rw [List.getElem?_zip_eq_some]; exact ⟨hb, he⟩
+      rw [hz]
+      simp only [Option.map_some, Nat.zero_add]
+      rcases hk with rfl | hk
+      · simp
+      · by_cases h0 : i = 0
+        · simp [h0]
+        · simp [h0, not_le.mpr hk]
+
+/-- … and a branch whose share is at most `perc` comes out disabled. -/
+theorem turnOff_disables (perc : ℝ) (bs : List (Box ℝ)) (en en' : List Bool) (h : turnOff perc bs en = some en')
+    (i : Nat) (b : Box ℝ) (e : Bool) (hb : bs[i]? = some b) (he : en[i]? = some e) (hi : 1 ≤ i)
+    (hk : b.w * b.h / areaOf bs ≤ perc) : en'[i]? = some false := by
+  unfold turnOff at h
+  split at h
+  · rename_i hl
+    have : i < bs.length := by
+      by_contra hc; rw [List.getElem?_eq_none (by omega)] at hb; cases hb
+    omega
+  · simp only at h
+    split at h
+    · cases h
+    · injection h with h; subst h
+      rw [getElem?_idxFrom_map]
+      have hz : (bs.zip en)[i]? = some (b, e) := by
+        rw [List.getElem?_zip_eq_some]; exact ⟨hb, he⟩
+      rw [hz]
+      have h0 : i ≠ 0 := by omega
+      simp [h0, hk]
 
 end FV.C09
